@@ -88,7 +88,12 @@ type Step struct {
 	D      int    `json:"ms,omitempty"`
 	Export int    `json:"export,omitempty"`
 	Fail   bool   `json:"fail,omitempty"`
-	Ctx    int    `json:"ctx,omitempty"`
+	// FailKind: what the failing export returns. 0: an ordinary error; 1: an
+	// error wrapping context.DeadlineExceeded (a downstream timeout - NOT the
+	// caller's context); 2: one wrapping context.Canceled; 3: a permanent error
+	// (consumererror.NewPermanent).
+	FailKind int `json:"fail_kind,omitempty"`
+	Ctx      int `json:"ctx,omitempty"`
 }
 
 func (s Step) String() string {
@@ -102,6 +107,9 @@ func (s Step) String() string {
 		return fmt.Sprintf("advance(%dms)", s.D)
 	case StepComplete:
 		if s.Fail {
+			if s.FailKind > 0 {
+				return fmt.Sprintf("fail(%d,%s)", s.Export, failKindNames[s.FailKind%len(failKindNames)])
+			}
 			return fmt.Sprintf("fail(%d)", s.Export)
 		}
 		return fmt.Sprintf("ok(%d)", s.Export)
@@ -112,6 +120,8 @@ func (s Step) String() string {
 	}
 }
 
+var failKindNames = []string{"error", "wraps-deadline-exceeded", "wraps-canceled", "permanent"}
+
 // Scenario is a complete case.
 type Scenario struct {
 	Signal string    `json:"signal"` // traces, logs, metrics
@@ -121,8 +131,16 @@ type Scenario struct {
 	// Gated: exports block until a complete step (or the cleanup phase)
 	// releases them. Otherwise they return at once with the scripted outcome.
 	Gated bool `json:"gated"`
-	// AutoFail lists the export indices that fail when Gated is false.
-	AutoFail []int `json:"auto_fail,omitempty"`
+	// AutoFail lists the export indices that fail when Gated is false;
+	// AutoFailKind is the FailKind of all of them.
+	AutoFail     []int `json:"auto_fail,omitempty"`
+	AutoFailKind int   `json:"auto_fail_kind,omitempty"`
+	// Chan > 0: the scenario may have more outstanding Consume calls than the
+	// shard's input channel holds, and was generated for a channel of this
+	// capacity (the processor sizes it with runtime.NumCPU(); the check runs
+	// such scenarios in a process pinned to Chan CPUs, see engine.go). 0: the
+	// engine never lets NumCPU-1 calls be outstanding.
+	Chan int `json:"chan,omitempty"`
 	// HonourCancel: a gated export returns ctx.Err() as soon as its context
 	// ends (a downstream consumer that honours cancellation).
 	HonourCancel bool `json:"honour_cancel,omitempty"`
@@ -157,6 +175,12 @@ func (s *Scenario) Summary() string {
 		if s.HonourCancel {
 			mode += "+honour-cancel"
 		}
+	}
+	if s.Chan > 0 {
+		mode += fmt.Sprintf("+channel of %d", s.Chan)
+	}
+	if len(s.AutoFail) > 0 && s.AutoFailKind > 0 {
+		mode += "+failures " + failKindNames[s.AutoFailKind%len(failKindNames)]
 	}
 	return fmt.Sprintf("%s {%s} %s reqs[%s] steps[%s]", s.Signal, s.Cfg, mode, strings.Join(reqs, " "), strings.Join(steps, " "))
 }
